@@ -47,8 +47,8 @@ package snapshot
 //@ func (kv *KV) Unmarshal
 //@   nopanic
 //@   modifies *kv, ghost_fs, ghost_kArr, ghost_kOff, ghost_kLen, ghost_vArr, ghost_vOff, ghost_vLen, ghost_ts0, ghost_fl0
-//@   loop 0 invariant range: 0 <= offset && offset <= dataSize && dataSize == len(data)
-//@   loop 0 decreases dataSize - offset
+//@   loop 0 invariant range: 0 <= offset && offset <= len(data)
+//@   loop 0 decreases len(data) - offset
 //@   loop 0 invariant key_in_data: sameSlice(kv.Key, old(kv.Key)) || sameArray(kv.Key, data)
 //@   loop 0 invariant val_in_data: sameSlice(kv.Value, old(kv.Value)) || sameArray(kv.Value, data)
 //@   ensures key_in_data: sameSlice(kv.Key, old(kv.Key)) || sameArray(kv.Key, data)
